@@ -82,7 +82,8 @@ PROPS = {
             "Verus half: Vec<u8>/String/Vec<String> are opaque values; equality of a moved Vec is identity",
         ],
         "not_decided": [
-            "emission half of C17 (each API call emits exactly one KeyValueOperation carrying the arguments): runs through CapabilityContext/Command::request_from_shell (async, crossbeam) - unreachable for both tools",
+            "emission half, command API: proved on the extracted crux_kv::command::KeyValue::{get,set,delete,exists,list_keys} that each builds one request for the operation of the matching kind carrying key/value/prefix/cursor unchanged and maps the answer with the matching unwrap_* - relative to ASSUMED contracts of Command::request_from_shell and RequestBuilder::map (one request for the operation given; answer passed through the mapping function); `impl Into<String>` keys are carried as what the caller's conversion yields",
+            "emission half, capability API (crux_kv/src/lib.rs:309-359): async fns over CapabilityContext::request_from_shell - not reachable",
             "identity across the serialized bridge (serde derive + serde_bytes round trip)",
         ],
     },
